@@ -423,8 +423,11 @@ pub fn run(tier: &str) -> i32 {
                     g.retain(|l| l.contains("Expected = "));
                 }
                 let mut w = alone_t[*d].clone();
-                w.retain(|l| l.contains("Expected = "));
-                g.retain(|l| l.contains("Expected = "));
+                // plain: every line of the case's report (section headers too); verbose: the verdict lines
+                if fmt == "verbose" {
+                    w.retain(|l| l.contains("Expected = "));
+                    g.retain(|l| l.contains("Expected = "));
+                }
                 if g != w {
                     acc.violate("test-case-differs", format!("suite {:?} ({}): case c{} reports {:?} but {:?} alone", sel, fmt, d, g, w), json!({"kind":"cli","argv":a,"stdin":"","files":{"rules":TEST_RULES,"tests":y},"expected":format!("{:?}", w),"observed":format!("{:?}", g)}));
                 }
